@@ -65,6 +65,49 @@ func tornFile() {
 			}
 			return fmt.Sprintf("{vbUUID %d seqNo %d snapshot %s bucket %q}", c.VbUUID, c.SeqNo, sn, d.BucketUUID)
 		}
+		// save / re-load is lossless for every SEQUENCE of saves into the same file (a later state may be shorter
+		// than the one it replaces)
+		var seqs [][]int
+		for a := 0; a < len(states); a++ {
+			seqs = append(seqs, []int{a})
+			for b := 0; b < len(states); b++ {
+				seqs = append(seqs, []int{a, b})
+				for c := 0; c < len(states); c++ {
+					seqs = append(seqs, []int{a, b, c})
+				}
+			}
+		}
+		for _, sq := range seqs {
+			_ = os.Remove(fn)
+			md2 := metadata.NewFSMetadata(cfg)
+			for step, si := range sq {
+				st := states[si]
+				dirty := map[uint16]bool{}
+				var ids []uint16
+				for k := range st {
+					dirty[k] = true
+					ids = append(ids, k)
+				}
+				res.Evaluations++
+				if err := md2.Save(st, dirty, "uuid-b"); err != nil {
+					res.Violations = append(res.Violations, fmt.Sprintf("saves %v: save #%d failed: %v", sq, step, err))
+					break
+				}
+				got, _, err := md2.Load(ids, "uuid-b")
+				if err != nil || got == nil {
+					res.Violations = append(res.Violations, fmt.Sprintf("saves %v into one file: after save #%d the file cannot be loaded (%v)", sq, step, err))
+					break
+				}
+				for vb, want := range st {
+					d, ok := got.Load(vb)
+					if !ok || show(d) != show(want) {
+						res.Violations = append(res.Violations, fmt.Sprintf("saves %v into one file: after save #%d vb%d loads as %s, saved was %s", sq, step, vb, show(d), show(want)))
+					}
+				}
+			}
+			res.Sequences++
+		}
+		_ = os.Remove(fn)
 		for si, st := range states {
 			_ = md.Save(st, map[uint16]bool{}, "uuid-b")
 			full, _ := os.ReadFile(fn)
